@@ -171,6 +171,76 @@ example :
       [(0, 1, false), (1, 2, true), (2, 3, true), (3, 4, false)] := by
   decide
 
+/-- **the geometric invariant for schemas with a key binder.**  Every API call of a schema whose processor list holds the
+key binder (`runOpsK`: redirected keys go through the nested chain and the post-processor, option actions recompose, a
+binding may change `full_shape`) keeps the segments tiling a prefix of the composition's input — for every binding list and
+every `switches:` section, with `ComposeGeoSpec` discharged for the Compose with the punctuation components (`composeP`,
+which with an empty mapping is the Compose of a schema without punctuator).  The re-entrant ProcessKey needs no fuel: see
+`C02.keybinder_nested_chain`. -/
+theorem geometry_reachable_keybinder (envOf : Bool → Env) (cfg : Bool → PSegCfg)
+    (henv : ∀ b, (envOf b).recompose = composeP (cfg b)) (htr : ∀ b, TranslateGeo (cfg b).toSegCfg)
+    (hf : ∀ b, FilterSub (cfg b).filter) (hnp : ∀ b, NoPrevMatch (envOf b)) (c0 : Ctx) (h0 : c0.comp.segs = [])
+    (ops : List Op) : GeoInv (runOpsK envOf c0 ops) :=
+  runOpsK_geo (fun b => by rw [henv b]; exact composeP_geo_spec (cfg b) (htr b) (hf b)) hnp ops (geoInv_of_no_segs h0)
+
+/-- **the geometric invariant for every timed history** (schemas with an ascii composer and / or a key binder): whatever the
+delays between the calls — so whichever Shift / Control taps meet the ascii composer's 500 ms deadline — the segments
+tile a prefix of the composition's input (the ascii composer confirms, commits, clears and pushes input only through
+context operations that keep the invariant). -/
+theorem geometry_reachable_timed (envOf : Bool → Env) (cfg : Bool → PSegCfg)
+    (henv : ∀ b, (envOf b).recompose = composeP (cfg b)) (htr : ∀ b, TranslateGeo (cfg b).toSegCfg)
+    (hf : ∀ b, FilterSub (cfg b).filter) (hnp : ∀ b, NoPrevMatch (envOf b)) (c0 : Ctx) (h0 : c0.comp.segs = [])
+    (ops : List (Nat × Op)) : GeoInv (runOpsT envOf c0 ops) :=
+  runOpsT_geo (fun b => by rw [henv b]; exact composeP_geo_spec (cfg b) (htr b) (hf b)) hnp ops (geoInv_of_no_segs h0)
+
+/-- **AsciiComposer's `ctx->PushInput(ch)` inserts within the input** in every state reachable by a timed history: the
+caret is at most the input's length (inline editing pushes at the caret, which the navigator may have moved) -/
+theorem ascii_pushinput_in_range (envOf : Bool → Env) (hrc : ∀ b, ComposeSpec (envOf b).recompose) (c0 : Ctx)
+    (h0 : c0.input = [] ∧ c0.caret = 0 ∧ c0.comp.segs = [] ∧ c0.comp.input = []) (ops : List (Nat × Op)) :
+    (runOpsT envOf c0 ops).caret ≤ (runOpsT envOf c0 ops).input.length :=
+  (runOpsT_inv hrc ops ⟨⟨by rw [h0.1, h0.2.1]; exact Nat.le_refl _, by rw [h0.2.2.1]; exact SegsOK.nil⟩,
+    by rw [h0.2.2.2, h0.1]; exact Nat.le_refl _⟩).caret_le
+
+/-- non-vacuity: `a b`, caret moved left, Shift_L (inline_ascii) tapped, `x` typed in ascii mode lands at the caret; the
+composition covers the input up to the caret: an abc segment and a raw one -/
+example :
+    let cfg : PSegCfg := { alphabet := [97, 98], initials := [97, 98], finals := [], delimiters := [],
+                           translate := fun _ g => [Cand.mk [65] [] [] g.start g.stop true] }
+    let env : Env := { alphabet := [97, 98], initials := [97, 98], processors := [.asciiComposer, .speller, .navigator, .fluidEditor],
+                       asciiKeys := [(xkShiftL, .inline)], recompose := composeP cfg }
+    let c := runOpsT (fun _ => env) {} [(0, .key 97 0), (0, .key 98 0), (0, .key 0xff51 0), (5, .key xkShiftL 0),
+                                        (20, .key xkShiftL (kRelease + kShift)), (0, .key 120 0)]
+    c.input = [97, 120, 98] ∧ c.caret = 2 ∧ c.comp.input = [97, 120] ∧ c.comp.segs.map (fun g => (g.start, g.stop)) = [(0, 1), (1, 2)] := by
+  decide
+
+/-- **KeyBinder::ReinterpretPagingKey's partial operations are in range** in every reachable state of a schema with a key
+binder: `input[input.length() - 1]` is read only when the input is not empty (its guard), and `ctx->PushInput('.')`
+inserts at a caret that lies within the input (`caret ≤ |input|`, the C02 invariant) -/
+theorem keybinder_reinterpret_in_range (envOf : Bool → Env) (hrc : ∀ b, ComposeSpec (envOf b).recompose) (c0 : Ctx)
+    (h0 : c0.input = [] ∧ c0.caret = 0 ∧ c0.comp.segs = [] ∧ c0.comp.input = []) (ops : List Op) :
+    let c := runOpsK envOf c0 ops
+    c.caret ≤ c.input.length ∧ (c.input ≠ [] → c.input.length - 1 < c.input.length) := by
+  have hinv : Inv (runOpsK envOf c0 ops) :=
+    runOpsK_inv hrc ops ⟨⟨by rw [h0.1, h0.2.1]; exact Nat.le_refl _, by rw [h0.2.2.1]; exact SegsOK.nil⟩,
+      by rw [h0.2.2.2, h0.1]; exact Nat.le_refl _⟩
+  refine ⟨hinv.caret_le, ?_⟩
+  intro hne
+  have := List.length_pos_iff.mpr hne
+  omega
+
+/-- non-vacuity: Control+m bound to `send_sequence: "a,a"` from an idle session — three nested ProcessKey calls leave
+three contiguous segments (abc, punct, abc) -/
+example :
+    let m : List (UInt8 × PunctDef) := [(44, .alt [[0xef, 0xbc, 0x8c], [44]])]
+    let cfg : PSegCfg := { alphabet := [97], initials := [97], finals := [], delimiters := [],
+                           translate := fun _ g => [Cand.mk [65] [] [] g.start g.stop true], punct := m }
+    let env : Env := { alphabet := [97], initials := [97], processors := [.keyBinder, .speller, .punctuator, .selector, .fluidEditor],
+                       punct := { half := m }, bindings := [⟨.always, 109, 4, .send [(97, 0), (44, 0), (97, 0)]⟩],
+                       recompose := composeP cfg }
+    (runOpsK (fun _ => env) {} [.key 109 4]).comp.segs.map (fun g => (g.start, g.stop, g.tags.punct)) =
+      [(0, 1, false), (1, 2, true), (2, 3, false)] := by
+  decide
+
 /-- **Punctuator::AlternatePunct's `ctx->input().substr(segment.start, segment.end - segment.start)` is in range**:
 in every reachable state of a schema with the punctuation components, the last segment starts within the RAW input
 (`start ≤ end ≤ |composition input| ≤ |input|`: the geometric invariant together with the C02 invariant) -/
